@@ -87,6 +87,10 @@ fn main() {
             devtime::dump(Path::new(args.get(2).map(|s| s.as_str()).unwrap_or("/tmp/gmsim-artifacts")));
             0
         }
+        Some("find-rare-e") => {
+            findrare::rare_e(args.get(2).and_then(|s| s.parse().ok()).unwrap_or(2));
+            0
+        }
         Some("dev-collisions") => {
             devtime::siphash_collisions();
             0
